@@ -202,13 +202,13 @@ Qed.
 Lemma refill_bounds (level : nat) :
   (1 <= level <= 8)%nat ->
   let np := Z.max 0 (num_placeholders (Z.of_nat level) 32 clen) in
-  let k := Z.to_nat (reply_count (1 + np) 32 clen) in
-  (1 <= k)%nat /\ (k <= Z.to_nat (1 + np))%nat /\ (level - 1 + k <= 8)%nat.
+  let k := if clen <=? MaxCookieLen then Z.to_nat (reply_count (1 + np) 32 clen) else O in
+  (clen <= MaxCookieLen -> (1 <= k)%nat) /\ (k <= Z.to_nat (1 + np))%nat /\ (level - 1 + k <= 8)%nat.
 Proof.
   intros Hl np k.
   pose proof (num_placeholders_le (Z.of_nat level) 32 clen) as [Hn _]. unfold numStoredCookies in Hn.
   pose proof (reply_count_bounds (1 + np) 32 clen ltac:(lia)) as Hk.
-  unfold k. split; [lia|]. split; lia.
+  unfold k. destruct (clen <=? MaxCookieLen) eqn:E; (split; [intros; lia|]); split; lia.
 Qed.
 
 Lemma exchange_inv p nx sent ok dflt :
@@ -220,7 +220,7 @@ Proof.
   unfold sys_exchange. unfold zlen.
   pose proof (refill_bounds (length (c :: rest)) ltac:(simpl in *; lia)) as Hb. cbv zeta in Hb.
   set (np := Z.max 0 (num_placeholders (Z.of_nat (length (c :: rest))) 32 clen)) in *.
-  set (k := Z.to_nat (reply_count (1 + np) 32 clen)) in *.
+  set (k := if clen <=? MaxCookieLen then Z.to_nat (reply_count (1 + np) 32 clen) else O) in *.
   inversion Hp as [|? ? Hnc Hr]; subst.
   destruct ok; unfold Inv; cbn [s_pool s_sent s_next].
   - repeat split.
@@ -302,6 +302,8 @@ Qed.
 Theorem pool_le_eight s o : Inv s -> (length (s_pool (sys_step issue clen s o)) <= 8)%nat.
 Proof. intros H. apply step_inv with (o := o) in H. destruct H as [_ [_ [_ [_ H]]]]. exact H. Qed.
 
+Hypothesis clen_ok : clen <= MaxCookieLen.   (* cookies the client keeps (StoreCookie) *)
+
 Lemma exchange_len p nx sent ok dflt :
   (1 <= length p <= 8)%nat ->
   let s' := sys_exchange issue clen p nx sent ok dflt in
@@ -311,11 +313,12 @@ Proof.
   intros Hl. destruct p as [|c rest]; [simpl in Hl; lia|].
   unfold sys_exchange, zlen.
   pose proof (refill_bounds (length (c :: rest)) Hl) as Hb. cbv zeta in Hb.
+  destruct Hb as [Hb1 Hb]. specialize (Hb1 clen_ok).
   destruct ok; cbn [s_pool].
   - rewrite app_length, issue_n_length. cbn [length] in *. split; [lia|]. intros E.
     assert (Hz : Z.max 0 (num_placeholders (Z.of_nat (S (length rest))) 32 clen) = 0).
     { pose proof (num_placeholders_le (Z.of_nat (S (length rest))) 32 clen) as [Hn _]. unfold numStoredCookies in Hn. lia. }
-    rewrite Hz in *. lia.
+    rewrite Hz in *. destruct (clen <=? MaxCookieLen); lia.
   - cbn [length] in *. lia.
 Qed.
 
@@ -410,7 +413,7 @@ Proof.
   destruct (s_pool s) as [|c rest] eqn:Ep; [congruence|].
   unfold sys_exchange. rewrite Hok. cbn [s_pool]. rewrite app_length, issue_n_length. unfold zlen.
   assert (Hlv : 1 <= Z.of_nat (length (c :: rest)) <= 8) by (cbn [length] in *; lia).
-  rewrite (num_placeholders_issued _ Hlv).
+  rewrite (num_placeholders_issued _ Hlv). change (124 <=? MaxCookieLen) with true. cbv iota.
   unfold reply_count. change (max_cookies 32 124) with 7.
   cbn [length] in *. destruct (_ && _) eqn:E; [apply andb_prop in E; destruct E|apply andb_false_iff in E; destruct E]; lia.
 Qed.
@@ -422,7 +425,7 @@ Proof.
   intros HI Hk H1 H2.
   assert (H7 : (7 <= length (s_pool (sys_step issue 124 s o1)))%nat).
   { destruct (s_pool s) as [|c rest] eqn:Ep.
-    - rewrite (rekey_success issue issue_inj 124 s o1 Ep Hk H1). lia.
+    - rewrite (rekey_success issue issue_inj 124 ltac:(unfold MaxCookieLen; lia) s o1 Ep Hk H1). lia.
     - pose proof (success_level s o1 HI ltac:(congruence) H1) as H. rewrite Ep in H. simpl length in H. lia. }
   pose proof (step_inv issue issue_inj 124 s o1 HI) as HI1.
   pose proof (success_level _ o2 HI1 ltac:(intros E; rewrite E in H7; simpl in H7; lia) H2) as H.
@@ -430,3 +433,158 @@ Proof.
 Qed.
 
 End Recover.
+
+(* ================= the encoders, byte by byte ================= *)
+
+Lemma zlen_app {A} (a b : list A) : zlen (a ++ b) = zlen a + zlen b.
+Proof. unfold zlen. rewrite app_length. lia. Qed.
+Lemma zlen_repeat {A} (x : A) n : zlen (repeat x n) = Z.of_nat n.
+Proof. unfold zlen. rewrite repeat_length. reflexivity. Qed.
+Lemma zlen_nonneg {A} (l : list A) : 0 <= zlen l.
+Proof. unfold zlen. lia. Qed.
+Lemma zlen_be16 x : zlen (be16 x) = 2.
+Proof. reflexivity. Qed.
+
+Lemma pack_hdr_ok out a b : zlen out + 4 <= MaxPacketLen -> pack_hdr out a b = Ok (out ++ be16 a ++ be16 b).
+Proof. intros H. unfold pack_hdr. destruct (_ <=? _) eqn:E; [reflexivity|lia]. Qed.
+
+Lemma copy_to_fits out src : zlen out + zlen src <= MaxPacketLen -> copy_to out src = out ++ src.
+Proof. intros H. unfold copy_to. rewrite firstn_all2; [reflexivity|]. unfold zlen in *. lia. Qed.
+
+(* one extension field on the wire *)
+Definition enc_field (t : Z) (body : bytes) : bytes :=
+  be16 t ++ be16 (4 + pad4 (zlen body)) ++ body ++ repeat 0 (Z.to_nat (pad4 (zlen body) - zlen body)).
+
+Lemma enc_field_len t body : zlen (enc_field t body) = field_len (zlen body).
+Proof.
+  unfold enc_field, field_len. rewrite !zlen_app, !zlen_be16, zlen_repeat.
+  pose proof (pad4_spec (zlen body) (zlen_nonneg body)). lia.
+Qed.
+
+Lemma pack_field_ok out t body :
+  zlen out + field_len (zlen body) <= MaxPacketLen ->
+  pack_field out t body = Ok (out ++ enc_field t body).
+Proof.
+  intros H. unfold pack_field, field_len in *.
+  pose proof (pad4_spec (zlen body) (zlen_nonneg body)) as [Hp _].
+  pose proof (zlen_nonneg out). pose proof (zlen_nonneg body). unfold MaxPacketLen in *.
+  rewrite pack_hdr_ok by (unfold MaxPacketLen; lia). cbn [obind].
+  assert (E : u16 (4 + u16 (pad4 (zlen body))) = 4 + pad4 (zlen body)).
+  { unfold u16. rewrite (Z.mod_small (pad4 _)) by lia. apply Z.mod_small. lia. }
+  rewrite E.
+  rewrite (copy_to_fits _ body) by (rewrite !zlen_app, !zlen_be16; unfold MaxPacketLen; lia).
+  rewrite copy_to_fits by (rewrite !zlen_app, !zlen_be16, zlen_repeat; unfold MaxPacketLen; lia).
+  unfold enc_field. rewrite <- !app_assoc. reflexivity.
+Qed.
+
+Lemma pack_fields_ok t bodies : forall out,
+  zlen out + fold_right (fun b acc => field_len (zlen b) + acc) 0 bodies <= MaxPacketLen ->
+  pack_fields out t bodies = Ok (out ++ concat (map (enc_field t) bodies)).
+Proof.
+  induction bodies as [|b r IH]; intros out H; simpl in *.
+  - rewrite app_nil_r. reflexivity.
+  - assert (0 <= fold_right (fun b acc => field_len (zlen b) + acc) 0 r).
+    { clear. induction r; simpl; [lia|]. pose proof (field_len_pos (zlen a) (zlen_nonneg a)). lia. }
+    rewrite pack_field_ok by lia. cbn [obind].
+    rewrite IH by (rewrite zlen_app, enc_field_len; lia).
+    rewrite <- app_assoc. reflexivity.
+Qed.
+
+Lemma fold_repeat_len (b : bytes) n :
+  fold_right (fun b acc => field_len (zlen b) + acc) 0 (repeat b n) = Z.of_nat n * field_len (zlen b).
+Proof. induction n; simpl repeat; simpl fold_right; [lia|]. rewrite IHn. lia. Qed.
+
+Section Enc.
+Variable seal : bytes -> bytes -> bytes -> bytes -> bytes.
+Hypothesis seal_len : forall k n p a, zlen (seal k n p a) = zlen p + 16.
+
+Definition enc_auth (nonce ct : bytes) : bytes :=
+  be16 extAuthenticator ++ be16 (4 + 2 + 2 + 16 + zlen ct) ++ be16 16 ++ be16 (zlen ct) ++ nonce ++ ct.
+
+Lemma pack_auth_ok out key plain nonce :
+  key_ok key = true -> zlen nonce = 16 -> zlen plain mod 4 = 0 ->
+  zlen out + auth_len (zlen plain) <= MaxPacketLen ->
+  pack_auth seal out key plain nonce = Ok (out ++ enc_auth nonce (seal key nonce plain out)).
+Proof.
+  intros Hk Hn Hp4 Hfit. unfold pack_auth, auth_len in *. rewrite Hk. simpl negb. cbv iota.
+  pose proof (zlen_nonneg out). pose proof (zlen_nonneg plain). unfold MaxPacketLen in *.
+  set (ct := seal key nonce plain out). assert (Hct : zlen ct = zlen plain + 16) by apply seal_len.
+  rewrite Hn. change (u16 16) with 16. assert (E0 : u16 (- (16)) mod 4 = 0) by reflexivity. rewrite E0.
+  assert (E1 : u16 (zlen ct) = zlen ct) by (unfold u16; apply Z.mod_small; lia).
+  rewrite E1.
+  assert (E2 : u16 (- zlen ct) mod 4 = 0) by (unfold u16; lia).
+  rewrite E2.
+  assert (E3 : u16 (4 + 2 + 2 + 16 + 0 + zlen ct + 0) = 4 + 2 + 2 + 16 + zlen ct) by (unfold u16; rewrite Z.mod_small; lia).
+  rewrite E3.
+  rewrite pack_hdr_ok by (unfold MaxPacketLen; lia). cbn [obind].
+  rewrite pack_hdr_ok by (rewrite !zlen_app, !zlen_be16; unfold MaxPacketLen; lia). cbn [obind].
+  simpl Z.to_nat. simpl repeat.
+  repeat match goal with |- context [copy_to (?a ++ ?b) ?src] =>
+    rewrite (copy_to_fits (a ++ b) src)
+      by (rewrite !zlen_app, !zlen_be16; change (zlen (@nil Z)) with 0; unfold MaxPacketLen; lia) end.
+  unfold enc_auth. rewrite !app_nil_r, <- !app_assoc. reflexivity.
+Qed.
+
+Lemma enc_auth_len nonce ct : zlen nonce = 16 -> zlen (enc_auth nonce ct) = 24 + zlen ct.
+Proof. intros H. unfold enc_auth. rewrite !zlen_app, !zlen_be16. lia. Qed.
+
+(* the request of a client whose pool is c :: rest *)
+Definition request_wire (hdr id c nonce key : bytes) (p : nat) : bytes :=
+  let pre := hdr ++ enc_field extUniqueIdentifier id ++ enc_field extCookie c ++
+             concat (repeat (enc_field extCookiePlaceholder (repeat 0 (length c))) p) in
+  pre ++ enc_auth nonce (seal key nonce [] pre).
+
+Theorem request_encoding hdr id c rest kc2s nonce :
+  zlen hdr = 48 -> zlen id = 32 -> key_ok kc2s = true -> zlen nonce = 16 ->
+  1 <= max_cookies 32 (zlen c) ->
+  let level := zlen (c :: rest) in
+  let p := Z.to_nat (Z.max 0 (num_placeholders level 32 (zlen c))) in
+  exists pkt, new_request (c :: rest) kc2s id = Ok pkt /\
+    p_cookies pkt = [c] /\ length (p_placeholders pkt) = p /\
+    encode_packet seal hdr pkt nonce = Ok (request_wire hdr id c nonce kc2s p) /\
+    zlen (request_wire hdr id c nonce kc2s p) = request_len level 32 (zlen c) /\
+    request_len level 32 (zlen c) <= MaxPacketLen.
+Proof.
+  intros Hh Hi Hk Hn Hm level p.
+  assert (Hlev : 1 <= level) by (unfold level, zlen; simpl length; lia).
+  pose proof (request_fits 32 (zlen c) level (zlen_nonneg c) Hm Hlev) as Hfit.
+  assert (Ep : Z.to_nat (num_placeholders level 32 (zlen c)) = p) by (unfold p; lia).
+  exists {| p_uid := id; p_cookies := [c]; p_placeholders := repeat (repeat 0 (length c)) p;
+            p_key := kc2s; p_plain := [] |}.
+  split; [unfold new_request; rewrite Hi; rewrite <- Ep; reflexivity|].
+  cbn [p_cookies p_placeholders p_uid p_key p_plain].
+  split; [reflexivity|]. split; [apply repeat_length|].
+  assert (Hlenwire : zlen (request_wire hdr id c nonce kc2s p) = request_len level 32 (zlen c)).
+  { unfold request_wire. cbv zeta. rewrite !zlen_app, enc_auth_len, seal_len by exact Hn.
+    rewrite !enc_field_len.
+    assert (Hc : zlen (concat (repeat (enc_field extCookiePlaceholder (repeat 0 (length c))) p))
+                 = Z.of_nat p * field_len (zlen c)).
+    { clear. induction p; cbn [repeat concat]; [reflexivity|].
+      rewrite zlen_app, IHp, enc_field_len, zlen_repeat. fold (zlen c). lia. }
+    rewrite Hc, Hh, Hi. unfold request_len, auth_len, ntpPacketLen. change (zlen []) with 0.
+    unfold p. lia. }
+  split; [|split; [exact Hlenwire|exact Hfit]].
+  unfold request_len, auth_len, ntpPacketLen in Hfit.
+  pose proof (field_len_pos (zlen c) (zlen_nonneg c)) as Hfc.
+  assert (Hfi : field_len 32 = 36) by reflexivity.
+  assert (Hpz : Z.of_nat p = Z.max 0 (num_placeholders level 32 (zlen c))) by (unfold p; lia).
+  unfold encode_packet. cbn [p_cookies p_placeholders p_uid p_key p_plain]. rewrite Hh. change (negb (48 =? ntpPacketLen)) with false. cbv iota.
+  unfold pack_uid. rewrite Hi. change (32 <? 32) with false. cbv iota.
+  rewrite pack_field_ok by (rewrite Hh, Hi, Hfi; unfold MaxPacketLen; lia). cbn [obind].
+  rewrite pack_fields_ok by (simpl fold_right; rewrite zlen_app, enc_field_len, Hh, Hi, Hfi; unfold MaxPacketLen in *; nia).
+  cbn [obind].
+  rewrite pack_fields_ok.
+  2:{ rewrite fold_repeat_len, zlen_repeat. fold (zlen c).
+      simpl map. simpl concat. rewrite !zlen_app, !enc_field_len, Hh, Hi, Hfi. change (zlen []) with 0.
+      unfold MaxPacketLen in *. nia. }
+  cbn [obind].
+  rewrite pack_auth_ok; try assumption; [|reflexivity|].
+  - unfold request_wire. cbv zeta. simpl map. simpl concat. rewrite app_nil_r, map_repeat, <- !app_assoc. reflexivity.
+  - simpl map. simpl concat. rewrite app_nil_r, map_repeat, !zlen_app, !enc_field_len, Hh, Hi, Hfi.
+    assert (Hc : zlen (concat (repeat (enc_field extCookiePlaceholder (repeat 0 (length c))) p))
+                 = Z.of_nat p * field_len (zlen c)).
+    { clear. induction p; cbn [repeat concat]; [reflexivity|].
+      rewrite zlen_app, IHp, enc_field_len, zlen_repeat. fold (zlen c). lia. }
+    rewrite Hc. unfold auth_len. change (zlen []) with 0. unfold MaxPacketLen in *. nia.
+Qed.
+End Enc.
